@@ -50,7 +50,7 @@ Lower(x) == IF x \in 65..90 THEN x + 32 ELSE x
 Unanimous(m, k) ==
   LET col == ColsOf(m)[k] IN
   /\ \A i \in 1..Len(col) : Lower(col[i][1]) = Lower(col[1][1])
-  /\ Lower(col[1][1]) \in {97, 99, 103, 116}
+  /\ Lower(col[1][1]) \in {97, 99, 103, 116, GAP}      \* the gap is a valid letter of the gapped alphabet the driver uses
   /\ \A i \in 1..Len(m.rows) : RowStart(m.rows[i]) <= Start(m) + k - 1 /\ Start(m) + k - 1 < RowEnd(m.rows[i])
 ConsensusOK(obs, m) ==
   obs = <<>> \/ (Len(obs) = End(m) - Start(m) /\
